@@ -947,6 +947,8 @@ func genPool() *rapid.Generator[[]string] {
 		base := rapid.SliceOfN(rapid.SampledFrom([]string{"a", "b", "c"}), 1, 3).Draw(t, "base")
 		k := rapid.SampledFrom([]int{1, 2, 3, 3, 4, 4}).Draw(t, "k")
 		pool := []string{}
+		// the names of the path parameters: any text between the braces is a name (TryExtractPathParameter)
+		fam := rapid.SampledFrom([]string{"p", "p", "p", "p", "user_id", "order-id", "идентификатор", "año", "用户", "P"}).Draw(t, "names")
 		for j := 0; j < k; j++ {
 			url := rapid.SampledFrom(genHosts).Draw(t, "host")
 			n := rapid.IntRange(0, len(base)).Draw(t, "depth")
@@ -954,7 +956,7 @@ func genPool() *rapid.Generator[[]string] {
 				s := base[i]
 				switch rapid.SampledFrom(genSegs).Draw(t, "seg") {
 				case "{}":
-					name := fmt.Sprintf("p%d", i+1)
+					name := fmt.Sprintf("%s%d", fam, i+1)
 					if rapid.IntRange(0, 59).Draw(t, "clash") == 0 {
 						name = "q"
 					}
